@@ -63,7 +63,15 @@ KSnap ==
                 (Okd = (InitialOK(Ev.classes, Ev.local, Ev.round0) /\ RefCond(Ev.ref, Ev.tsk, Ev.rep)))
     /\ UNCHANGED chain
 
-Next == Reset \/ Write \/ Refs \/ KSnap
+\* {"ev":"vst","classes":[..],"states":[..],"finalized":b,"res":r}: validateSnapshotTransaction on a node whose
+\* store already holds the members in the given states (classes in the snapshot's own transaction order)
+VST ==
+    /\ IsEvent("vst")
+    /\ Okd => VSTNecessary(Ev.classes, Ev.states)
+    /\ (Full /\ Len(Ev.classes) > 1) => (Okd = VSTAccept(Ev.classes, Ev.states, Ev.finalized))
+    /\ UNCHANGED chain
+
+Next == Reset \/ Write \/ Refs \/ KSnap \/ VST
 Spec == Init /\ [][Next]_vars
 
 Inv == IsChain(chain)
